@@ -194,6 +194,10 @@ SPECS["C09"] = {
         {"name": "H3-resize", "pkg": "engine/pool", "files": ["pool/c09.go"], "fn": "VerifC09Resize",
          "what": "SetWorkerCount(a) then (b, wait) with a,b in 0..2 while a task arrives", "reach": ["resized"],
          "quick": {"params": {"P": 1}, "unwind": 30, "wall_s": 300}, "thorough": {"params": {"P": 2}, "unwind": 30, "wall_s": 1500}},
+        {"name": "H1-dependent-tasks", "pkg": "engine/pool", "files": ["pool/c09.go"], "fn": "VerifC09Dependent",
+         "what": "N tasks waiting for a gate and one task opening it, added in a symbolic order to N+1 workers, then no further call: every task is started by an idle worker and completes", "reach": ["quiescent"],
+         "quick": {"params": {"N": 1, "P": 2}, "unwind": 30, "wall_s": 300},
+         "thorough": {"params": {"N": 2, "P": 2}, "unwind": 30, "wall_s": 1500}},
         {"name": "H3-resize-seq", "pkg": "engine/pool", "files": ["pool/c09.go"], "fn": "VerifC09ResizeSeq",
          "what": "a in 1..2 (thorough 1..3) workers, 0..a of them busy with gated tasks plus a backlog of up to 2 queued tasks, then SetWorkerCount(b), SetWorkerCount(c) with b,c symbolic while the gate opens: the pool settles at c workers", "reach": ["settled"],
          "quick": {"params": {"MAXW": 2, "P": 1}, "unwind": 30, "wall_s": 600},
